@@ -32,7 +32,7 @@ PROPS["C12"] = dict(
 )
 
 # ---------------------------------------------------------------- manifest text
-HOOK_COMMITS = []
+HOOK_COMMITS = ["b37444c", "e1637c5"]
 NOT_APPLICABLE = {}
 MANIFEST_TEXT = {}
 MANIFEST_TEXT["C12"] = dict(
